@@ -14,7 +14,10 @@ import (
 	"github.com/ryogrid/SamehadaDB/lib/recovery"
 	"github.com/ryogrid/SamehadaDB/lib/storage/access"
 	"github.com/ryogrid/SamehadaDB/lib/storage/disk"
+	"github.com/ryogrid/SamehadaDB/lib/storage/index/index_constants"
 	"github.com/ryogrid/SamehadaDB/lib/storage/page"
+	"github.com/ryogrid/SamehadaDB/lib/storage/table/column"
+	"github.com/ryogrid/SamehadaDB/lib/storage/table/schema"
 	"github.com/ryogrid/SamehadaDB/lib/storage/tuple"
 	"github.com/ryogrid/SamehadaDB/lib/types"
 	"pgregory.net/rapid"
@@ -39,10 +42,12 @@ type Op struct {
 	Size   int    `json:"n,omitempty"`
 	Fill   byte   `json:"f,omitempty"`
 	Rollb  bool   `json:"r,omitempty"` // UpdateTuple's isRollbackOrUndo flag
+	Col    int    `json:"c,omitempty"` // schema mode, update: 0 = whole row, 1 / 2 = only column a / b (the update executor's form: column index list + schema)
 }
 
 type Case struct {
-	Locking bool `json:"locking"` // false: recovery-phase transaction (no locks); true: real lock manager, one transaction
+	Locking bool `json:"locking"`          // false: recovery-phase transaction (no locks); true: real lock manager, one transaction
+	Schema  bool `json:"schema,omitempty"` // rows are tuples of a two-varchar schema (a, b) instead of raw bytes, so that UPDATEs of a column subset can be issued
 	Ops     []Op `json:"ops"`
 }
 
@@ -55,9 +60,31 @@ const (
 type mslot struct {
 	st   int
 	data []byte
+	vals [2]string // schema mode: the column values
+}
+
+var sc2 = schema.NewSchema([]*column.Column{column.NewColumn("a", types.Varchar, false, index_constants.IndexKindInvalid, types.PageID(-1), nil),
+	column.NewColumn("b", types.Varchar, false, index_constants.IndexKindInvalid, types.PageID(-1), nil)})
+
+func tuple2(a, b string) *tuple.Tuple {
+	return tuple.NewTupleFromSchema([]types.Value{types.NewVarchar(a), types.NewVarchar(b)}, sc2)
+}
+
+var base2 = int(tuple2("", "").Size()) // bytes of a two-varchar tuple besides the characters
+
+func str(n int, fill byte, salt int) string {
+	if n < 0 {
+		n = 0
+	}
+	b := make([]byte, n)
+	for i := range b {
+		b[i] = 'a' + (fill+byte(i*7)+byte(salt))%26
+	}
+	return string(b)
 }
 
 type stats struct {
+	partialUpd int // schema mode: updates issued for a column subset
 	shiftOps   int // accepted size-changing update / applied delete that had to move other rows' bytes, with >=2 other rows
 	accepted   int
 	refused    int
@@ -223,6 +250,14 @@ func run(c *Case, st *stats) *vf.Failure {
 			n := size(op)
 			data := mkData(n, op.Fill, step)
 			tpl := tuple.NewTuple(nil, uint32(n), data)
+			var vals [2]string
+			if c.Schema {
+				chars := n - base2
+				vals = [2]string{str(chars/3, op.Fill, step), str(chars-chars/3, op.Fill+1, step)}
+				tpl = tuple2(vals[0], vals[1])
+				n = int(tpl.Size())
+				data = append([]byte{}, tpl.Data()[:n]...)
+			}
 			got, err := tp.InsertTuple(tpl, lm, lockMgr, txn)
 			if err != nil || got == nil {
 				st.refused++
@@ -247,7 +282,7 @@ func run(c *Case, st *stats) *vf.Failure {
 				}
 				st.slotReuse++
 			}
-			slots[s] = mslot{stLive, data}
+			slots[s] = mslot{stLive, data, vals}
 		case opUpdate:
 			if len(slots) == 0 {
 				continue
@@ -261,9 +296,37 @@ func run(c *Case, st *stats) *vf.Failure {
 			}
 			data := mkData(n, op.Fill, step)
 			newT := tuple.NewTuple(nil, uint32(n), data)
+			var cols []int
+			var usc *schema.Schema
+			vals := slots[tgt].vals
+			if c.Schema {
+				// n is the size the row shall have afterwards; the characters go to the updated column(s)
+				switch op.Col {
+				case 1:
+					vals[0] = str(n-base2-len(vals[1]), op.Fill, step)
+					null := *types.NewVarchar("").SetNull()
+					newT = tuple.NewTupleFromSchema([]types.Value{types.NewVarchar(vals[0]), null}, sc2)
+					cols, usc = []int{0}, sc2
+				case 2:
+					vals[1] = str(n-base2-len(vals[0]), op.Fill, step)
+					null := *types.NewVarchar("").SetNull()
+					newT = tuple.NewTupleFromSchema([]types.Value{null, types.NewVarchar(vals[1])}, sc2)
+					cols, usc = []int{1}, sc2
+				default:
+					chars := n - base2
+					vals = [2]string{str(chars/3, op.Fill, step), str(chars-chars/3, op.Fill+1, step)}
+					newT = tuple2(vals[0], vals[1])
+				}
+				want := tuple2(vals[0], vals[1])
+				n = int(want.Size())
+				data = append([]byte{}, want.Data()[:n]...)
+				if cols != nil {
+					st.partialUpd++
+				}
+			}
 			oldT := new(tuple.Tuple)
 			off0 := int(tp.GetTupleOffsetAtSlot(uint32(tgt)))
-			ok, _, _ := tp.UpdateTuple(newT, nil, nil, oldT, rid, txn, lockMgr, lm, op.Rollb)
+			ok, _, _ := tp.UpdateTuple(newT, cols, usc, oldT, rid, txn, lockMgr, lm, op.Rollb)
 			if !ok {
 				st.refused++
 				st.refusedUpd++
@@ -289,6 +352,7 @@ func run(c *Case, st *stats) *vf.Failure {
 				st.shrinkOK++
 			}
 			slots[tgt].data = data
+			slots[tgt].vals = vals
 		case opMark:
 			if len(slots) == 0 {
 				continue
@@ -375,6 +439,7 @@ func genOp(t *rapid.T) Op {
 	}
 	if k == opUpdate {
 		op.Rollb = rapid.Bool().Draw(t, "r")
+		op.Col = rapid.IntRange(0, 2).Draw(t, "col")
 	}
 	return op
 }
@@ -383,11 +448,12 @@ func genCase(t *rapid.T) *Case {
 	nops := rapid.SampledFrom([]int{8, 8, 15, 30, 60, 90}).Draw(t, "nops") // rapid's own slice lengths are mostly short
 	return &Case{
 		Locking: rapid.Bool().Draw(t, "locking"),
+		Schema:  rapid.IntRange(0, 2).Draw(t, "schema") == 0,
 		Ops:     rapid.SliceOfN(rapid.Custom(genOp), nops, 90).Draw(t, "ops"),
 	}
 }
 
-const rule = "Case = generated sequence (8-90 ops) of InsertTuple/UpdateTuple(grow/shrink/same, rollback flag on/off)/MarkDelete/ApplyDelete/RollbackDelete/GetTuple on one 4096-byte TablePage, sizes from a boundary dictionary (1,2,7,8,9,100,1000,exact remaining space and +-1,4064) and uniform ranges, with and without a lock manager. Non-trivial = some accepted size-changing update or applied delete hit a row that was not at the free-space pointer (other rows' bytes had to shift) while >= 2 other rows were stored."
+const rule = "Case = generated sequence (8-90 ops) of InsertTuple/UpdateTuple(grow/shrink/same, rollback flag on/off)/MarkDelete/ApplyDelete/RollbackDelete/GetTuple on one 4096-byte TablePage, sizes from a boundary dictionary (1,2,7,8,9,100,1000,exact remaining space and +-1,4064) and uniform ranges, with and without a lock manager; in a third of the cases the rows are tuples of a two-varchar schema and updates are also issued for a column subset (column index list + schema, as the update executor does). Non-trivial = some accepted size-changing update or applied delete hit a row that was not at the free-space pointer (other rows' bytes had to shift) while >= 2 other rows were stored."
 
 var assumptions = []string{
 	"logging disabled (log-record side effects are outside this property)",
